@@ -1,10 +1,10 @@
 (* Props/C16.v -- Typst rendering is total, whitespace-normalised and unambiguous.
    Model: Model/Typst.v (tables: Gen/TypstGen.v, regenerated from typst_formatter/definition.rs and
-   formatter_enum.rs).  Proofs: Proofs/Typst{P,Perm,Tok,Skel,Inj,DecP,InjP,Debug,Main}.v.
+   formatter_enum.rs).  Proofs: Proofs/Typst{P,Perm,Tok,Skel,Inj,DecP,InjP,Debug,Main,Value,ValueInj,Final}.v.
    Floats are printed by an abstract function fshow (f64::to_string); names by an abstract
    function to_debug (format!("{:?}", name)) or by [debug_str esc], the model of Rust's
    `impl Debug for str` over the table [esc] of \u{..}-escaped characters. *)
-From Nv Require Import Proofs.TypstMain Proofs.EqHashP.
+From Nv Require Import Proofs.TypstFinal Proofs.EqHashP.
 From Coq Require Import Permutation.
 
 (* ------------------------------------------------------------------------------------------ *)
@@ -191,3 +191,74 @@ Example typst_injective_example :
   typst_term dbg0 (TBox2 Inheritance (TName Word [65]) (TName Word [66])) =
   TOk [108;114;40;97;110;103;108;101;46;108;32;34;65;34;32;97;114;114;111;119;46;114;32;34;66;34;32;97;110;103;108;101;46;114;41].
 Proof. exact typst_injective_example_proof. Qed.
+
+(* ------------------------------------------------------------------------------------------ *)
+(* whole values: sentences, tasks, the Narsese value                                           *)
+(* ------------------------------------------------------------------------------------------ *)
+(* segment lists of the Sentence / Task impls have the expected shape with space-delimited separators;
+   punctuations, stamps, number brackets and separators are single tokens that tell the cases apart;
+   a task begins with a token no term begins with *)
+Theorem C16_value_tables : value_tables_ok = true /\ value_dec_ok = true.
+Proof. exact (conj value_tables_ok_true value_dec_ok_true). Qed.
+Print Assumptions C16_value_tables.
+
+(* the rendering of ANY value is the single-space join of a token list, hence has no leading,
+   trailing or doubled whitespace; fshow is any float printer whose outputs are tokens (non-empty, no
+   whitespace: true of f64::to_string, also for NaN and the infinities) *)
+Theorem typst_value_tokens : forall (to_debug : str -> str),
+  (forall n, only_sp (to_debug n) = true) ->
+  forall (F : Type) (fshow : F -> str), (forall f, is_token (fshow f) = true) ->
+  forall v, typst_narsese F fshow to_debug v = TOk (unwords (value_toks to_debug F fshow v)) /\
+            Forall (fun x => is_token x = true) (value_toks to_debug F fshow v).
+Proof.
+  exact (fun d H F fs Hf v => conj (typst_value_tokens_proof d H F fs Hf tok_tables_ok_true value_tables_ok_true v)
+                                   (value_toks_tokens d H F fs Hf tok_tables_ok_true value_tables_ok_true v)).
+Qed.
+Print Assumptions typst_value_tokens.
+
+Theorem typst_tokens_normal : forall ts, Forall (fun t => is_token t = true) ts ->
+  lead_ok (unwords ts) = true /\ trail_ok (unwords ts) = true /\ nodouble (unwords ts) = true.
+Proof. exact unwords_normal. Qed.
+Print Assumptions typst_tokens_normal.
+
+(* VALUES, full strength, outside K6.  wf_value: the term is wf_term, every number is in the domain
+   okf; on that domain the float printer prints only digits, '.' and '-' and is injective (the
+   shortest-round-trip contract of f64::to_string on the numbers of [0,1]; distinct bit patterns --
+   so 0.0 and -0.0, which f64 == identifies, are DIFFERENT values here and do render differently:
+   known class K7 concerns `equal values render identically`, not this theorem).
+   Two well-formed values -- term, sentence or task -- with the same rendering are the same value. *)
+Theorem typst_value_injective : forall (to_debug : str -> str),
+  (forall n, only_sp (to_debug n) = true) ->
+  (forall n n', to_debug n = to_debug n' -> n = n') ->
+  (forall n, q34 (to_debug n) = true) ->
+  (forall n, ws_free n = true -> ws_free (to_debug n) = true) ->
+  forall (F : Type) (fshow : F -> str) (okf : F -> Prop),
+  (forall f, is_token (fshow f) = true) ->
+  (forall f, okf f -> forallb numch (fshow f) = true) ->
+  (forall f g, okf f -> okf g -> fshow f = fshow g -> f = g) ->
+  forall v v', wf_value F okf v -> wf_value F okf v' ->
+  typst_narsese F fshow to_debug v = typst_narsese F fshow to_debug v' -> v = v'.
+Proof.
+  exact (fun d H1 H2 H3 H4 F fs okf F1 F2 F3 =>
+    typst_value_injective_proof d H1 H2 H3 H4 F fs okf F1 F2 F3
+      tok_tables_ok_true dec_tables_ok_true value_tables_ok_true value_dec_ok_true).
+Qed.
+Print Assumptions typst_value_injective.
+
+Theorem typst_value_injective_rust_debug : forall esc,
+  (forall c, is_ws c = true -> c = 32 \/ c = 9 \/ c = 10 \/ c = 13 \/ esc c = true) ->
+  forall (F : Type) (fshow : F -> str) (okf : F -> Prop),
+  (forall f, is_token (fshow f) = true) ->
+  (forall f, okf f -> forallb numch (fshow f) = true) ->
+  (forall f g, okf f -> okf g -> fshow f = fshow g -> f = g) ->
+  forall v v', wf_value F okf v -> wf_value F okf v' ->
+  typst_narsese F fshow (debug_str esc) v = typst_narsese F fshow (debug_str esc) v' -> v = v'.
+Proof. exact typst_value_injective_debug. Qed.
+Print Assumptions typst_value_injective_rust_debug.
+
+(* the hypotheses on the float printer are satisfiable, and the model runs on a task *)
+Example typst_value_example :
+  typst_narsese Z fshow01 dbg0 (NTask (SJudgement (TName Word [65]) (TruthDouble 1%Z 0%Z) (Fixed (-5)), BudgetSingle 0%Z)) =
+  TOk (unwords [[108;114;40;92;36]; [48]; [92;36;41]; [115;112;97;99;101]; [34;65;34]; [46]; [115;112;97;99;101];
+                [116;61]; [45;53]; [115;112;97;99;101]; [108;114;40;97;110;103;108;101;46;108]; [49;44;48]; [97;110;103;108;101;46;114;41]]).
+Proof. exact typst_value_example_proof. Qed.
